@@ -44,6 +44,9 @@ def _laws(res):
                 f'a<b exactly when b>a for the {kind} order used in the postcondition; LT and EQ exclude each other')
 
 
+CONFORMANCE = {"_compare/num": [{"operator": "<", "left_operand": 1, "right_operand": {"$f": "1.5"}}, {"operator": "!=", "left_operand": {"$e": 1}, "right_operand": ""}, {"operator": "==", "left_operand": {"$e": 1}, "right_operand": 0}, {"operator": ">=", "left_operand": True, "right_operand": "abc"}, {"operator": "<", "left_operand": {"$e": 1}, "right_operand": {"$dt": [2020, 1, 1, 0, 0, 0, 0]}}, {"operator": "<=", "left_operand": {"$f": "-868.5"}, "right_operand": -868}, {"operator": ">", "left_operand": {"$e": 1}, "right_operand": -1}], "_compare/text": [{"operator": "<", "left_operand": "abc", "right_operand": "abd"}, {"operator": "==", "left_operand": "", "right_operand": {"$e": 1}}, {"operator": "<", "left_operand": "10", "right_operand": "9"}, {"operator": ">", "left_operand": "a", "right_operand": 5}], "_compare/date": [{"operator": "==", "left_operand": {"$d": [2020, 1, 1]}, "right_operand": {"$dt": [2020, 1, 1, 0, 0, 0, 0]}}, {"operator": "<", "left_operand": {"$dt": [2020, 1, 1, 12, 0, 0, 0]}, "right_operand": {"$d": [2020, 1, 2]}}, {"operator": ">", "left_operand": {"$d": [2020, 1, 1]}, "right_operand": {"$e": 1}}], "_by_operator": [{"operator": "<>", "left_operand": 1, "right_operand": 2}, {"operator": "<", "left_operand": "a", "right_operand": 1}, {"operator": "!=", "left_operand": {"$e": 1}, "right_operand": None}]}
+
+
 def run(ctx):
     res = PropResult('C10')
     K.k1_block(res, ctx, MOD, K1, 'C10.')
@@ -51,7 +54,8 @@ def run(ctx):
     K.canary_contract(res, MOD, '_compare/num', 'numeric_exact',
                       'implies(is_num(left_operand) and is_num(right_operand), result == opres(operator, '
                       'R(left_operand) <= R(right_operand), R(left_operand) == R(right_operand)))')
-    K.monitor(res, ctx, 'mon_c10')
+    K.conformance(res, 'contracts.rt', CONFORMANCE)
+    K.monitor_if_present(res, ctx, 'mon_c10')
     res.trusted_base += ['pv prelude: Python comparison dispatch incl. reflected operands and subclass priority',
                          'A-REAL: floats as reals (exact for comparing given doubles); float(int) exact for |i| <= 2**53']
     res.assumptions += ['A-REAL', 'A-STR', 'A-STATIC', 'numeric-looking texts are compared as numbers by the runtime (pinned test '
